@@ -10,7 +10,7 @@ import (
 )
 
 var (
-	strPool   = []string{"v0", "v1", "v2", "e0", "e1", "A", "B", "x", "y", "k", "s", "l", "a", "a.k", "w", "", "nope", "$a", "$a.k", "$b._gid", "$nope.k", "_gid", "_label", "_from", "_to", "_data", "$", "$.", ".", "a..b", "l[0]", "$._data", "__current__", "-k", "a b"}
+	strPool   = []string{"v0", "v1", "v2", "e0", "e1", "A", "B", "x", "y", "k", "s", "l", "a", "a.k", "w", "m", "", "nope", "$a", "$a.k", "$b._gid", "$nope.k", "_gid", "_label", "_from", "_to", "_data", "$", "$.", ".", "a..b", "l[0]", "$._data", "__current__", "-k", "a b"}
 	markNames = []string{"a", "b", "", "nope", "$a", "__current__", "m1"}
 )
 
